@@ -65,7 +65,7 @@ def gen_batch(rng, g, tagbase, hot):
     return ops, tag
 
 
-def build_case(cid, g, rng, nbatches, images=None, faults_p=0.0):
+def build_case(cid, g, rng, nbatches, images=None, faults_p=0.0, alloc=None, open_only=False):
     lines = []
     batches = []
     tag = 0
@@ -129,6 +129,17 @@ def build_case(cid, g, rng, nbatches, images=None, faults_p=0.0):
             if rng.random() < 0.4:
                 ops.append(('F',))
             rng.shuffle(ops)
+        open_style = False
+        if not evict_style and not stale_style and b == 0 and alloc and (open_only or rng.random() < 0.35):
+            # right after open (nothing cached yet): an operation that releases a host cluster has to load the refcount
+            # block slice first - next to a flush_meta that scans the refcount cache meanwhile
+            a = rng.choice(alloc)
+            # (a flush that starts later would repair a flag cleared too early, so exactly one flush)
+            ops = [('D', a * g.cs, g.cs), ('F',)]
+            if not open_only and rng.random() < 0.3:
+                ops.append(rng.choice([('K',), ('D', rng.choice(alloc) * g.cs, g.cs)]))
+            rng.shuffle(ops)
+            open_style = True
         seed = rng.randrange(1, 1 << 40)
         mode = rng.choice([0, 0, 1, 2, 3])
         if stale_style and not evict_style and rng.random() < 0.9:
@@ -146,6 +157,11 @@ def build_case(cid, g, rng, nbatches, images=None, faults_p=0.0):
         delays = [rng.choice([0, 0, 0, 3, 8, 15, 30]) if i > 0 else 0 for i in range(len(ops))]
         if stale_style and not evict_style:
             delays = [0 if o[0] == 'D' else rng.choice([2, 3, 4, 5, 6, 7, 8, 9, 10]) for o in ops]
+        if open_style:
+            # the flush starts while the discard is somewhere between its own flush block and the refcount update
+            delays = [0 if o[0] == 'D' else rng.randrange(2, 44) for o in ops]
+            if rng.random() < 0.5:
+                mode = 3
         lines += [('@%d ' % dl if dl else '') + hist.op_line(o) for o, dl in zip(ops, delays)]
         if faulty:
             lines.append('faults clear')
